@@ -1,0 +1,21 @@
+//go:build verif
+
+package scrapligo
+
+// Contracts for /verif (comment-only; see /verif/DESIGN.md). Never compiled into the product.
+
+// C18: the driver hands an rpc-reply to edit-config on as a response only if it carries no rpc-error of severity
+// error; whatever else it carries (warnings), a reply with an error is an error. What the library puts into
+// ErrorMessages / WarningErrorMessages / Failed is the library's business (assumed).
+// assumed: building and parsing the reply document touches that document only
+//@ extern github.com/beevik/etree.NewDocument
+//@   noeffect
+//@ extern (*github.com/beevik/etree.Document).ReadFromString
+//@   noeffect
+//@ func (*ScrapligoNetconfTarget).EditConfig
+//@   props C18
+//@   nosafety only the verdict on the reply is claimed
+//@   requires snt != nil
+//@   ensures a_reply_with_an_error_is_never_a_response [C18]: called(EditConfig) && callres(EditConfig, 0, 1) == nil && callres(EditConfig, 0, 0) != nil &&
+//@            len(callres(EditConfig, 0, 0).ErrorMessages) > 0 ==> r0 == nil
+//@   ensures a_driver_error_is_an_error [C18]: called(EditConfig) && callres(EditConfig, 0, 1) != nil ==> r0 == nil && r1 != nil
